@@ -364,7 +364,16 @@ EXTRA_TEXT = {
         "getstorage / findstorage and historic forms, invokefunctionhistoric / invokescripthistoric by index, block hash and state root, "
         "calculatenetworkfee -> sendrawtransaction; RPCState.tla gives every answer as a function of the flat storage per height and TLC recomputes "
         "each recorded answer; Paging.tla checks the walk law of both paging protocols for all 15 360 (map, prefix, page size, limit) cases, refutes "
-        "five named deviations, and every walk is replayed against the real server.",
+        "five named deviations, and every walk is replayed against the real server."
+        " Extension stateservice (spec/statesvc, harness/c03statesvc): state root VALIDATION above the local roots - votes, incomplete roots with their window, M-of-N "
+        "witness assembly, validated-root broadcast, AddStateRoot / VerifyStateRoot, validated height, the key cache of designated StateValidators across designation "
+        "changes. The abstract module StateSvc judges only what C03 demands of this machinery: a root stored, signed or assembled for height h is the local root of h "
+        "(StoredIsLocal, EmitIsLocal, VoteIsLocal) and a refused root changes no stored root (RefusedKeepsRoots); witness rules for roots equal to the local one, validated "
+        "height monotonicity, restarts, relaying and progress are stated in the same module but reported as 'beyond:' observations, never as violations. StateSvcImpl has one "
+        "action per critical section of service and module (six universes exhaustive, up to 410k states each; ten named deviations refuted, among them four former behaviours "
+        "of the code that were repaired: d3fcc6d, 5827c1d, 51bbb30, ec75270). Binding: 4 (7 thorough) real services on real chains driven through the Ledger interface (block "
+        "hand-over, log-line barrier, timer gate); TLC-simulated and seeded schedules (reorder, duplicate, drop, corruption, forged and foreign payloads, old-set and "
+        "low-threshold witnesses, restarts) + 7 scripted worlds judged by StateSvcTrace; 6 binding self-tests.",
  "C04": " Extension events (spec/events, harness/c04events): what core.Blockchain and the mempool deliver to subscribers as a function of the accepted "
         "blocks - documented per-block order, exactly once in chain order, notifications only of HALTed executions, nothing for refused offers (incl. a "
         "late storeBlock failure) or header-only additions, delivered = stored, no loss / duplication for other subscribers when one (un)subscribes "
